@@ -397,7 +397,7 @@ func checkC20(c *Check) {
 			}
 			n++
 			c.Sites++
-			mode := ci.Common().Args[2]
+			mode := originOfVar(ci.Common().Args[2])
 			exact := false
 			if call, isC := mode.(*ssa.Call); isC && call.Call.IsInvoke() && call.Call.Method.Name() == "Mode" {
 				// FileInfo from Stat() of a file opened from the input name
@@ -653,7 +653,7 @@ func ruleConfiguredWriter(c *Check, p *Program, family []*ssa.Function) {
 	var apply ssa.Instruction
 	nOpts := 0
 	for _, ci := range callsIn(h) {
-		if isLz4(staticCallee(ci), "Writer.Apply") && ci.Common().Args[0] == zw {
+		if isLz4(staticCallee(ci), "Writer.Apply") && originOfVar(ci.Common().Args[0]) == ssa.Value(zw) {
 			if sl, ok := ci.Common().Args[1].(*ssa.Slice); ok {
 				if al, isAl := sl.X.(*ssa.Alloc); isAl {
 					n := 0
@@ -673,9 +673,25 @@ func ruleConfiguredWriter(c *Check, p *Program, family []*ssa.Function) {
 	ok := apply != nil && nOpts >= 5
 	why := fmt.Sprintf("Apply with %d options found", nOpts)
 	if ok {
+		uses := append([]ssa.Instruction{}, *zw.Referrers()...)
+		// a Writer kept in a variable that a function literal captures: the uses are the loads of that variable
 		for _, r := range *zw.Referrers() {
+			if st, isSt := r.(*ssa.Store); isSt && st.Val == ssa.Value(zw) {
+				if refs := st.Addr.Referrers(); refs != nil {
+					for _, rr := range *refs {
+						if ld, isLd := rr.(*ssa.UnOp); isLd && ld.Op == token.MUL && ld.Parent() == h && ld.Referrers() != nil {
+							uses = append(uses, *ld.Referrers()...)
+						}
+					}
+				}
+			}
+		}
+		for _, r := range uses {
 			in, isIn := r.(ssa.Instruction)
 			if !isIn || in == apply {
+				continue
+			}
+			if st, isSt := r.(*ssa.Store); isSt && st.Val == ssa.Value(zw) {
 				continue
 			}
 			if _, isDbg := r.(*ssa.DebugRef); isDbg {
@@ -868,7 +884,7 @@ func ruleSinkBoundIn(c *Check, p *Program, h *ssa.Function, typ, cmd, rule strin
 			continue
 		}
 		for _, a := range ci.Common().Args {
-			if stripIface(a) == obj {
+			if originOfVar(stripIface(a)) == originOfVar(obj) {
 				copies = append(copies, ci)
 			}
 		}
@@ -1594,4 +1610,36 @@ func ruleChunkReadEOF(c *Check, p *Program, h *ssa.Function, cmd string) {
 	if n == 0 {
 		c.OK("R20.15", "lz4c."+cmd+"#chunk-read-eof", p.Pos(h.Pos()), "the command does not read its input in chunks of its own (io.Copy does)", "no io.ReadFull / io.ReadAtLeast in the handler", false)
 	}
+}
+
+
+// originOfVar: a value read back from a local variable that lives in a cell (because a function literal captures
+// it) is the value that was stored there, when there is exactly one such store; otherwise v itself.
+func originOfVar(v ssa.Value) ssa.Value {
+	for i := 0; i < 4; i++ {
+		ld, ok := v.(*ssa.UnOp)
+		if !ok || ld.Op != token.MUL {
+			return v
+		}
+		var srcs []ssa.Value
+		switch cell := ld.X.(type) {
+		case *ssa.Alloc:
+			if refs := cell.Referrers(); refs != nil {
+				for _, r := range *refs {
+					if st, isS := r.(*ssa.Store); isS && st.Addr == ssa.Value(cell) {
+						srcs = append(srcs, st.Val)
+					}
+				}
+			}
+		case *ssa.FreeVar:
+			srcs = capturedSources(ld)
+		default:
+			return v
+		}
+		if len(srcs) != 1 {
+			return v
+		}
+		v = srcs[0]
+	}
+	return v
 }
